@@ -197,7 +197,12 @@ pub fn file_case(seed: u64, idx: u64, max_plain: usize) -> FileCase {
         let (s, p, l) = clean_stream(&mut r, 0, max_plain);
         match r.below(6) {
             0 => {
-                v.extend_from_slice(&zlib_wrap(*r.pick(&ZLIB_HEADERS), &s, &p));
+                let mut w = zlib_wrap(*r.pick(&ZLIB_HEADERS), &s, &p);
+                if r.chance(1, 4) {
+                    // no Adler-32: the wrapper ends exactly where the stream ends
+                    w.truncate(w.len() - 4);
+                }
+                v.extend_from_slice(&w);
                 label.push_str(&format!("zlib({l}) "));
             }
             1 => {
@@ -228,7 +233,9 @@ pub fn file_case(seed: u64, idx: u64, max_plain: usize) -> FileCase {
             }
         }
     }
-    v.extend_from_slice(&junk(&mut r, 100));
+    if r.chance(2, 3) {
+        v.extend_from_slice(&junk(&mut r, 100));
+    }
     // damage
     match r.below(10) {
         0 | 1 => {
@@ -558,6 +565,12 @@ pub enum Io {
     Zero,
 }
 
+/// injected hard errors cycle through kinds a real source can report (never Interrupted)
+pub fn error_kind(n: usize) -> std::io::ErrorKind {
+    use std::io::ErrorKind::*;
+    [Other, UnexpectedEof, BrokenPipe, TimedOut, ConnectionReset, InvalidData, WouldBlock, PermissionDenied][n % 8]
+}
+
 pub struct SchedReader<'a> {
     pub data: &'a [u8],
     pub pos: usize,
@@ -576,7 +589,7 @@ impl<'a> Read for SchedReader<'a> {
         if let Some(o) = self.fail_at {
             if self.pos >= o {
                 self.hard_error_delivered = true;
-                return Err(std::io::Error::new(std::io::ErrorKind::Other, "injected read error"));
+                return Err(std::io::Error::new(error_kind(self.pos + self.calls), "injected read error"));
             }
         }
         let item = if self.at < self.sched.len() {
@@ -601,7 +614,7 @@ impl<'a> Read for SchedReader<'a> {
             }
             Io::Error => {
                 self.hard_error_delivered = true;
-                Err(std::io::Error::new(std::io::ErrorKind::Other, "injected read error"))
+                Err(std::io::Error::new(error_kind(self.pos + self.calls), "injected read error"))
             }
             Io::Zero => {
                 // a source that reports end of data early is a truncated source: hard fault
@@ -628,7 +641,7 @@ impl Write for SchedWriter {
         if let Some(o) = self.fail_at {
             if self.out.len() >= o {
                 self.hard_error_delivered = true;
-                return Err(std::io::Error::new(std::io::ErrorKind::Other, "injected write error"));
+                return Err(std::io::Error::new(error_kind(self.out.len() + self.calls), "injected write error"));
             }
         }
         let item = if self.at < self.sched.len() {
@@ -661,7 +674,7 @@ impl Write for SchedWriter {
             }
             Io::Error => {
                 self.hard_error_delivered = true;
-                Err(std::io::Error::new(std::io::ErrorKind::Other, "injected write error"))
+                Err(std::io::Error::new(error_kind(self.out.len() + self.calls), "injected write error"))
             }
         }
     }
@@ -876,6 +889,54 @@ pub fn c13_case(seed: u64, idx: u64, thorough: bool) -> Vec<CaseOut> {
 // ---------------------------------------------------------------------------------------
 // C11: zstd wrappers
 
+fn rd_varint(c: &[u8], p: &mut usize) -> Option<usize> {
+    let (mut v, mut sh) = (0usize, 0);
+    loop {
+        let b = *c.get(*p)?;
+        *p += 1;
+        v |= ((b & 0x7f) as usize) << sh;
+        sh += 7;
+        if b & 0x80 == 0 || sh > 35 {
+            return Some(v);
+        }
+    }
+}
+
+/// offsets in a container at which a chunk ends (harness-side walk of the chunk structure)
+pub fn container_boundaries(c: &[u8]) -> Vec<usize> {
+    let mut out = vec![1usize];
+    let mut p = 1usize;
+    while p < c.len() {
+        let tag = c[p];
+        p += 1;
+        let ok = (|| -> Option<()> {
+            match tag {
+                0 => {
+                    let n = rd_varint(c, &mut p)?;
+                    p += n;
+                }
+                1 | 2 => {
+                    if tag == 2 {
+                        while rd_varint(c, &mut p)? != 0 {}
+                        p += 6;
+                    }
+                    let n = rd_varint(c, &mut p)?;
+                    p += n;
+                    let m = rd_varint(c, &mut p)?;
+                    p += m;
+                }
+                _ => return None,
+            }
+            Some(())
+        })();
+        if ok.is_none() || p > c.len() {
+            break;
+        }
+        out.push(p);
+    }
+    out
+}
+
 pub fn c11_case(seed: u64, idx: u64) -> CaseOut {
     let mut r = Rng::new(seed ^ 0x11 ^ idx.wrapping_mul(0x9E3779B97F4A7C15));
     let mut out = CaseOut::default();
@@ -906,7 +967,11 @@ pub fn c11_case(seed: u64, idx: u64) -> CaseOut {
         }
     };
     let mut caps = vec![size, size + 1, size + 1 + r.below(100000) as usize];
-    let mut small = vec![0usize];
+    let mut small = vec![0usize, 1];
+    // every chunk boundary of the expanded form: a prefix cut there is itself a well-formed container
+    if let Run::Done(Ok(c)) = guarded(|| expand_zlib_chunks(&f, 0)) {
+        small.extend(container_boundaries(&c).into_iter().filter(|&b| b < size));
+    }
     if size > 0 {
         small.push(size - 1);
         small.push(r.below(size as u64) as usize);
